@@ -22,7 +22,7 @@ pub fn dump() {
     for (n, g) in cats {
         let s = maps::general_category().get_set_for_value(g);
         let il = s.to_code_point_inversion_list();
-        let mut line = format!("gc {}", n);
+        let mut line = format!("gc {} {:?}", n, g);
         for r in il.iter_ranges() {
             line.push_str(&format!(" {} {}", r.start(), r.end() + 1));
         }
@@ -30,16 +30,16 @@ pub fn dump() {
     }
     use GeneralCategoryGroup as GG;
     let grps: [(&str, GG); 36] = [
-        ("L", GG::Letter), ("Lu", GG::UppercaseLetter), ("Ll", GG::LowercaseLetter), ("Lt", GG::TitlecaseLetter),
-        ("Lm", GG::ModifierLetter), ("Lo", GG::OtherLetter), ("M", GG::Mark), ("Mn", GG::NonspacingMark),
-        ("Mc", GG::SpacingMark), ("Me", GG::EnclosingMark), ("N", GG::Number), ("Nd", GG::DecimalNumber),
-        ("Nl", GG::LetterNumber), ("No", GG::OtherNumber), ("P", GG::Punctuation), ("Pc", GG::ConnectorPunctuation),
-        ("Pd", GG::DashPunctuation), ("Ps", GG::OpenPunctuation), ("Pe", GG::ClosePunctuation),
-        ("Pi", GG::InitialPunctuation), ("Pf", GG::FinalPunctuation), ("Po", GG::OtherPunctuation),
-        ("Z", GG::Separator), ("Zs", GG::SpaceSeparator), ("Zl", GG::LineSeparator), ("Zp", GG::ParagraphSeparator),
-        ("S", GG::Symbol), ("Sm", GG::MathSymbol), ("Sc", GG::CurrencySymbol), ("Sk", GG::ModifierSymbol),
-        ("So", GG::OtherSymbol), ("C", GG::Other), ("Cc", GG::Control), ("Cf", GG::Format), ("Co", GG::PrivateUse),
-        ("Cn", GG::Unassigned),
+        ("Letter", GG::Letter), ("UppercaseLetter", GG::UppercaseLetter), ("LowercaseLetter", GG::LowercaseLetter), ("TitlecaseLetter", GG::TitlecaseLetter),
+        ("ModifierLetter", GG::ModifierLetter), ("OtherLetter", GG::OtherLetter), ("Mark", GG::Mark), ("NonspacingMark", GG::NonspacingMark),
+        ("SpacingMark", GG::SpacingMark), ("EnclosingMark", GG::EnclosingMark), ("Number", GG::Number), ("DecimalNumber", GG::DecimalNumber),
+        ("LetterNumber", GG::LetterNumber), ("OtherNumber", GG::OtherNumber), ("Punctuation", GG::Punctuation), ("ConnectorPunctuation", GG::ConnectorPunctuation),
+        ("DashPunctuation", GG::DashPunctuation), ("OpenPunctuation", GG::OpenPunctuation), ("ClosePunctuation", GG::ClosePunctuation),
+        ("InitialPunctuation", GG::InitialPunctuation), ("FinalPunctuation", GG::FinalPunctuation), ("OtherPunctuation", GG::OtherPunctuation),
+        ("Separator", GG::Separator), ("SpaceSeparator", GG::SpaceSeparator), ("LineSeparator", GG::LineSeparator), ("ParagraphSeparator", GG::ParagraphSeparator),
+        ("Symbol", GG::Symbol), ("MathSymbol", GG::MathSymbol), ("CurrencySymbol", GG::CurrencySymbol), ("ModifierSymbol", GG::ModifierSymbol),
+        ("OtherSymbol", GG::OtherSymbol), ("Other", GG::Other), ("Control", GG::Control), ("Format", GG::Format), ("PrivateUse", GG::PrivateUse),
+        ("Unassigned", GG::Unassigned),
     ];
     for (n, g) in grps {
         let set = sets::for_general_category_group(g);
